@@ -77,7 +77,7 @@ fn real_request(buf: &[u8], cfg: Cfg, cap: usize, entry: u8) -> RealReq {
         path = req.path.map(|m| range_in(buf, m.as_ptr(), m.len()));
         version = req.version;
         headers = if matches!(outcome, Outcome::Complete(_)) { hdr_ranges(buf, req.headers) } else { vec![] };
-        hlen_after = if matches!(outcome, Outcome::Complete(_)) { req.headers.len() } else { cap };
+        hlen_after = if matches!(outcome, Outcome::Complete(_)) { req.headers.len() } else if req.headers.len() == 0 { cap } else { usize::MAX };
     }
     let nh = headers.len();
     let untouched_tail = entry != 0 || !matches!(outcome, Outcome::Complete(_)) || arr[nh.min(cap)..cap].iter().all(|h| h.name.as_ptr() == SENT_NAME.as_ptr());
@@ -102,7 +102,7 @@ fn real_response(buf: &[u8], cfg: Cfg, cap: usize, entry: u8) -> RealResp {
         let r = pc.parse_response_with_uninit_headers(&mut resp, buf, &mut un);
         let outcome = outcome_of(r);
         let headers = if matches!(outcome, Outcome::Complete(_)) { hdr_ranges(buf, resp.headers) } else { vec![] };
-        let hl = if matches!(outcome, Outcome::Complete(_)) { resp.headers.len() } else { cap };
+        let hl = if matches!(outcome, Outcome::Complete(_)) { resp.headers.len() } else if resp.headers.len() == 0 { cap } else { usize::MAX };
         RealResp { outcome, version: resp.version, code: resp.code, reason: resp.reason.map(|m| (range_in(buf, m.as_ptr(), m.len()), m.len())), headers, hlen_after: hl }
     }
 }
@@ -273,6 +273,7 @@ fn search_request(ctx: &mut Ctx) {
         }
     }
     search_header_block(ctx, b"GET / HTTP/1.1\r\n", 0);
+    search_header_block(ctx, b"\nPOST /p HTTP/1.0\n", 0);
 }
 fn search_response(ctx: &mut Ctx) {
     let alpha = [b'2', b' ', b'O', b'\r', b'\n', b'\t', 0u8, 0x7f, 0xff, 0x80, b'H'];
@@ -296,6 +297,7 @@ fn search_response(ctx: &mut Ctx) {
         for cfgb in 0..128u8 { for k in 0..=m.len() { check_response(ctx, &m[..k], cfgb, 1); } }
     }
     search_header_block(ctx, b"HTTP/1.1 200 OK\r\n", 1);
+    search_header_block(ctx, b"HTTP/1.0 404\n", 1);
 }
 /// header-block inputs after a start line (kind 0 = request, 1 = response, 2 = parse_headers)
 fn search_header_block(ctx: &mut Ctx, start: &[u8], kind: u8) {
@@ -329,6 +331,20 @@ fn search_header_block(ctx: &mut Ctx, start: &[u8], kind: u8) {
         if l % 8 == 0 { run(ctx, &v[..v.len() - 36], &opt_cfgs, &[1]); run(ctx, &n, &opt_cfgs, &[1]); }
         if ctx.full() { return; }
     } } }
+    // value endings: every boundary byte as the last value byte, with optional trailing OWS
+    ctx.gen = "value-end";
+    for &b1 in BOUNDARY { for tail in [&b""[..], b" ", b"\t ", b" \t"] { for pre in [&b"v"[..], b"", b"caf\xc3"] {
+        let mut v = b"N: ".to_vec(); v.extend_from_slice(pre); v.push(b1); v.extend_from_slice(tail); v.extend(b"\r\nM: x\r\n\r\n");
+        run(ctx, &v, &opt_cfgs, &[2]);
+    } } }
+    // long dropped lines: a NUL / bare CR / LF far behind the offending byte
+    ctx.gen = "dropped-line";
+    for l in 0..=40usize { for bad in [&b"\0"[..], b"\rX", b"\r", b"\n", b"\r\n"] {
+        let mut v = b"Bad Header".to_vec(); v.extend(pad(b'x', l)); v.extend_from_slice(bad); v.extend(b"yyyyyyyyyyyyyyyyyyyy\r\nOk: 1\r\n\r\n");
+        run(ctx, &v, &opt_cfgs, &[2]);
+        let mut w = b"N: v\x01".to_vec(); w.extend(pad(b'x', l)); w.extend_from_slice(bad); w.extend(b"yyyyyyyyyyyyyyyyyyyy\r\nOk: 1\r\n\r\n");
+        run(ctx, &w, &opt_cfgs, &[2]);
+    } }
     // capacity law / prefixes / many headers
     ctx.gen = "capacity";
     let many = b"A: 1\r\nBb: 22\r\nC:\r\nD: x \t\r\nE:\t y\r\n\r\nrest";
